@@ -95,7 +95,14 @@ def inject_cond(r, spec):
     """(mutated spec, what) from a well-formed single-leaf condition spec {key: val}"""
     (key, val), = spec.items()
     toks = key.split(".")
-    choice = r.choice(["datum", "preproc", "callable", "arity-long", "arity-short", "several", "typename", "shape"])
+    choice = r.choice(["datum", "preproc", "preproc-na", "callable", "arity-long", "arity-short", "several", "typename", "shape"])
+    if choice == "preproc-na":
+        # a pre-processor that exists, on the one datum kind that has none
+        pre = r.choice(["length", "len", "dtype", "type", "LENGTH", "Len", "DType"])
+        sp = {".".join([r.choice(["index", "Index", "INDEX"]), pre, toks[-1]]): val}
+        if r.random() < 0.3:
+            sp = {r.choice(["and", "or", "xor"]): [{"index.equal_to": 0}, sp]}
+        return sp, "a pre-processor the datum kind does not have"
     if choice == "datum":
         return {".".join([r.choice(["foo", "values", "val", "item"])] + toks[1:]): val}, "an unknown datum kind"
     if choice == "preproc":
@@ -226,6 +233,8 @@ def generate(rng, n, tier):
         ("cond", {"and": [{"and": [{"value.gt": 1}, {"value.lt": 4}]}, {}]}, False, "mutation"),
         ("part", {"type": "map_value", 5: 1}, True, "an unknown part argument"),
         ("cond", {"value.__class__.mro": None}, True, "an unknown pre-processor"),
+        ("cond", {"index.length.equal_to": 1}, True, "a pre-processor the datum kind does not have"),
+        ("part", {"type": "list_value", "index.len.lt": 2}, True, "a pre-processor the datum kind does not have"),
     ]
     for kind, spec, must, what in fixed:
         c = make_case(kind, spec, must, what)
